@@ -180,18 +180,24 @@ def run_chunks(ctx, binp, child, cases, tag, jobs=None):
     jobs = min(jobs or NCPU, max(1, len(cases)))
     chunks = [list(range(i, len(cases), jobs)) for i in range(jobs)]
     def one(ci):
+        # one harness PROCESS per case: a history starts from a fresh package state (pools, loggers),
+        # so a replay file reproduces exactly what was seen
         idx = chunks[ci]
         outfile = os.path.join(ctx.tmp, "argv_%s_%d.txt" % (tag, ci))
         gate = os.path.join(ctx.tmp, "gate_%s_%d" % (tag, ci))
-        open(outfile, "w").close()
-        inp = "\n".join(json.dumps(request(cases[i], child, outfile, gate)) for i in idx) + "\n"
-        rc, out, err = sh([binp], input=inp.encode(), timeout=1500, env=goenv())
-        if rc != 0 and "DATA RACE" not in err:
-            raise BuildError("unitrun (shslice) failed rc=%d: %s" % (rc, err[-2000:]))
-        ans = [json.loads(l) for l in out.splitlines() if l.strip()]
-        if len(ans) != len(idx):
-            raise BuildError("unitrun (shslice): %d answers for %d requests: %s" % (len(ans), len(idx), err[-2000:]))
-        return idx, ans, err
+        ans, errs = [], []
+        for i in idx:
+            open(outfile, "w").close()
+            inp = json.dumps(request(cases[i], child, outfile, gate)) + "\n"
+            rc, out, err = sh([binp], input=inp.encode(), timeout=600, env=goenv())
+            if rc != 0 and "DATA RACE" not in err:
+                raise BuildError("unitrun (shslice) failed rc=%d: %s" % (rc, err[-2000:]))
+            lines = [l for l in out.splitlines() if l.strip()]
+            if len(lines) != 1:
+                raise BuildError("unitrun (shslice): %d answers for one request: %s" % (len(lines), err[-2000:]))
+            ans.append(json.loads(lines[0]))
+            errs.append(err)
+        return idx, ans, "\n".join(errs)
     answers = [None] * len(cases)
     errs = []
     for idx, ans, err in pmap(one, list(range(len(chunks))), jobs=jobs):
